@@ -236,8 +236,16 @@ func (i *interpreter) equals(t types.Type, x, y value) value {
 		ya := y.(array)
 		tElt := t.Underlying().(*types.Array).Elem()
 		// byte arrays whose bytes are slices of one wide term compare wide
-		if wx, wy := i.wideBytes(x), i.wideBytes(ya); wx != nil && wy != nil {
-			return simplify(i.p.st().Eq(wx, wy))
+		if wx, wy := i.wideBytes(x), i.wideBytes(ya); wx != nil || wy != nil {
+			if wx == nil && i.allBytes(x) {
+				wx = i.concatBytes([]value(x))
+			}
+			if wy == nil && i.allBytes(ya) {
+				wy = i.concatBytes([]value(ya))
+			}
+			if wx != nil && wy != nil {
+				return simplify(i.p.st().Eq(wx, wy))
+			}
 		}
 		var res value = true
 		for k := range x {
@@ -285,6 +293,21 @@ func (i *interpreter) wideBytes(a array) *Term {
 		return nil
 	}
 	return i.concatBytes([]value(a))
+}
+
+func (i *interpreter) allBytes(a array) bool {
+	for _, b := range a {
+		switch t := b.(type) {
+		case uint8:
+		case *Term:
+			if t.sort.K != SBV || t.sort.W != 8 {
+				return false
+			}
+		default:
+			return false
+		}
+	}
+	return len(a) >= 4
 }
 
 func (i *interpreter) concatBytes(bs []value) *Term {
